@@ -350,3 +350,182 @@ Proof.
   2:{ pose proof (ser_toks_length _ Hft). lia. }
   destruct (parse_flat s Hwf (S (S (length (flat s)))) ltac:(lia)) as [H1 _]. rewrite H1. reflexivity.
 Qed.
+
+(* ------------------------------------------------------------------ the converse: what parses is canonical *)
+Lemma take_n_spec {A} n (l a b : list A) : take_n n l = Some (a, b) -> l = a ++ b /\ length a = n.
+Proof.
+  revert l a b. induction n as [|n IH]; intros l a b H.
+  - cbn in H. injection H as <- <-. auto.
+  - destruct l as [|x l]; [discriminate|]. cbn [take_n] in H.
+    destruct (take_n n l) as [[a' b']|] eqn:E; [|discriminate]. injection H as <- <-.
+    destruct (IH l a' b' E) as [-> <-]. auto.
+Qed.
+
+Lemma split_n_spec n (l d r : bytes) : split_n n l = Some (d, r) -> l = d ++ r /\ blen d = n.
+Proof.
+  unfold split_n, blen. intros H. apply take_n_spec in H. destruct H as [-> H]. rewrite H, N2Nat.id. auto.
+Qed.
+
+Lemma opcode_byte_inv c : opcode_byte (byte_opcode c) = c.
+Proof.
+  destruct c as [|p]; [reflexivity|].
+  do 8 (destruct p as [p|p|]; try reflexivity).
+Qed.
+
+(* what push_minimal says about the push opcode, by the length of the data *)
+Lemma push_minimal_le75 c d : c <= 75 -> blen d = c -> push_minimal c d = true -> ser_push d = c :: d.
+Proof.
+  intros Hc Hl _. unfold ser_push. rewrite Hl. destruct (N.leb_spec c 75); [reflexivity|lia].
+Qed.
+
+Lemma push_minimal_len (opc : N) d : push_minimal opc d = true -> opc <> 1 ->
+  (blen d <= 75 /\ opc = blen d) \/ (75 < blen d <= 255 /\ opc = 76) \/
+  (255 < blen d <= 65535 /\ opc = 77) \/ (65535 < blen d /\ opc = 78).
+Proof.
+  unfold push_minimal. intros H Hopc.
+  destruct d as [|x [|y r]].
+  - change (blen []) with 0 in *. cbn [N.leb] in H. left. split; [lia|]. apply N.eqb_eq in H. exact H.
+  - destruct ((1 <=? x) && (x <=? 16) || (x =? 129)); [discriminate|]. apply N.eqb_eq in H. contradiction.
+  - set (n := blen (x :: y :: r)) in *.
+    destruct (N.leb_spec n 75); [left; split; [lia|apply N.eqb_eq, H]|].
+    destruct (N.leb_spec n 255); [right; left; split; [lia|apply N.eqb_eq, H]|].
+    destruct (N.leb_spec n 65535); [right; right; left; split; [lia|apply N.eqb_eq, H]|].
+    right; right; right. split; [lia|apply N.eqb_eq, H].
+Qed.
+
+Definition is_bytes (b : bytes) : Prop := Forall (fun x => x < 256) b.
+
+Lemma is_bytes_app a b : is_bytes (a ++ b) -> is_bytes a /\ is_bytes b.
+Proof. apply Forall_app. Qed.
+
+Lemma lex_bytes_sound : forall f b ts, is_bytes b -> lex_bytes f b = Some ts -> ser_toks ts = b.
+Proof.
+  induction f as [|f IH]; intros b ts Hb H.
+  - destruct b; [|discriminate]. injection H as <-. reflexivity.
+  - destruct b as [|c r]; [injection H as <-; reflexivity|].
+    cbn [lex_bytes] in H. inversion Hb as [|c' r' Hc Hr]; subst.
+    destruct (N.leb_spec c 75) as [Hc75|Hc75].
+    { destruct (split_n c r) as [[d r1]|] eqn:E; [|discriminate].
+      destruct (push_minimal c d) eqn:Em; [|discriminate].
+      destruct (lex_bytes f r1) as [ts'|] eqn:El; [|discriminate]. injection H as <-.
+      destruct (split_n_spec _ _ _ _ E) as [-> Hl]. destruct (is_bytes_app _ _ Hr) as [_ Hr1].
+      cbn [ser_toks ser_tok]. rewrite (push_minimal_le75 c d Hc75 Hl Em), (IH _ _ Hr1 El). reflexivity. }
+    destruct (N.eqb_spec c 76) as [->|N76].
+    { destruct r as [|n r0]; [discriminate|]. inversion Hr as [|n' r0' Hn Hr0]; subst.
+      destruct (split_n n r0) as [[d r1]|] eqn:E; [|discriminate].
+      destruct (push_minimal 76 d) eqn:Em; [|discriminate].
+      destruct (lex_bytes f r1) as [ts'|] eqn:El; [|discriminate]. injection H as <-.
+      destruct (split_n_spec _ _ _ _ E) as [-> Hl]. destruct (is_bytes_app _ _ Hr0) as [_ Hr1].
+      destruct (push_minimal_len 76 d Em ltac:(lia)) as [[Hq1 Ho]|[[Hd Ho]|[[Hq3 Ho]|[Hq4 Ho]]]]; try lia.
+      cbn [ser_toks ser_tok]. unfold ser_push. rewrite Hl in *.
+      destruct (N.leb_spec n 75); [lia|]. destruct (N.leb_spec n 255); [|lia].
+      rewrite (IH _ _ Hr1 El). reflexivity. }
+    destruct (N.eqb_spec c 77) as [->|N77].
+    { destruct r as [|lo [|hi r0]]; try discriminate.
+      inversion Hr as [|? ? Hlo Hr']; subst. inversion Hr' as [|? ? Hhi Hr0]; subst.
+      destruct (split_n (lo + 256 * hi) r0) as [[d r1]|] eqn:E; [|discriminate].
+      destruct (push_minimal 77 d) eqn:Em; [|discriminate].
+      destruct (lex_bytes f r1) as [ts'|] eqn:El; [|discriminate]. injection H as <-.
+      destruct (split_n_spec _ _ _ _ E) as [-> Hl]. destruct (is_bytes_app _ _ Hr0) as [_ Hr1].
+      destruct (push_minimal_len 77 d Em ltac:(lia)) as [[Hq1 Ho]|[[Hq2 Ho]|[[Hd Ho]|[Hq4 Ho]]]]; try lia.
+      cbn [ser_toks ser_tok]. unfold ser_push. rewrite Hl in *.
+      destruct (N.leb_spec (lo + 256 * hi) 75); [lia|]. destruct (N.leb_spec (lo + 256 * hi) 255); [lia|].
+      destruct (N.leb_spec (lo + 256 * hi) 65535); [|lia].
+      assert (E0 : (lo + 256 * hi) mod 256 = lo).
+      { replace (lo + 256 * hi) with (lo + hi * 256) by lia. rewrite N.mod_add by lia. apply N.mod_small. lia. }
+      assert (D0 : (lo + 256 * hi) / 256 = hi).
+      { replace (lo + 256 * hi) with (lo + hi * 256) by lia. rewrite N.div_add by lia.
+        rewrite (N.div_small lo 256) by lia. lia. }
+      rewrite E0, D0.
+      rewrite (IH _ _ Hr1 El). reflexivity. }
+    destruct (N.eqb_spec c 78) as [->|N78].
+    { destruct r as [|x0 [|x1 [|x2 [|x3 r0]]]]; try discriminate.
+      inversion Hr as [|? ? H0 Hr1']; subst. inversion Hr1' as [|? ? H1 Hr2']; subst.
+      inversion Hr2' as [|? ? H2 Hr3']; subst. inversion Hr3' as [|? ? H3 Hr0]; subst.
+      set (n := x0 + 256 * x1 + 65536 * x2 + 16777216 * x3) in *.
+      destruct (split_n n r0) as [[d r1]|] eqn:E; [|discriminate].
+      destruct (push_minimal 78 d) eqn:Em; [|discriminate].
+      destruct (lex_bytes f r1) as [ts'|] eqn:El; [|discriminate]. injection H as <-.
+      destruct (split_n_spec _ _ _ _ E) as [-> Hl]. destruct (is_bytes_app _ _ Hr0) as [_ Hr1].
+      destruct (push_minimal_len 78 d Em ltac:(lia)) as [[Hq1 Ho]|[[Hq2 Ho]|[[Hq3 Ho]|[Hd Ho]]]]; try lia.
+      cbn [ser_toks ser_tok]. unfold ser_push. rewrite Hl in *.
+      destruct (N.leb_spec n 75); [lia|]. destruct (N.leb_spec n 255); [lia|].
+      destruct (N.leb_spec n 65535); [lia|].
+      assert (E0 : n mod 256 = x0).
+      { unfold n. replace (x0 + 256 * x1 + 65536 * x2 + 16777216 * x3) with (x0 + (x1 + 256 * x2 + 65536 * x3) * 256) by lia.
+        rewrite N.mod_add by lia. apply N.mod_small. lia. }
+      assert (D0 : n / 256 = x1 + 256 * x2 + 65536 * x3).
+      { unfold n. replace (x0 + 256 * x1 + 65536 * x2 + 16777216 * x3) with (x0 + (x1 + 256 * x2 + 65536 * x3) * 256) by lia.
+        rewrite N.div_add by lia. rewrite (N.div_small x0 256) by lia. lia. }
+      assert (E1 : (n / 256) mod 256 = x1).
+      { rewrite D0. replace (x1 + 256 * x2 + 65536 * x3) with (x1 + (x2 + 256 * x3) * 256) by lia.
+        rewrite N.mod_add by lia. apply N.mod_small. lia. }
+      assert (D1 : n / 65536 = x2 + 256 * x3).
+      { change 65536 with (256 * 256). rewrite <- N.div_div by lia. rewrite D0.
+        replace (x1 + 256 * x2 + 65536 * x3) with (x1 + (x2 + 256 * x3) * 256) by lia.
+        rewrite N.div_add by lia. rewrite (N.div_small x1 256) by lia. lia. }
+      assert (E2 : (n / 65536) mod 256 = x2).
+      { rewrite D1. replace (x2 + 256 * x3) with (x2 + x3 * 256) by lia. rewrite N.mod_add by lia. apply N.mod_small. lia. }
+      assert (D2 : n / 16777216 = x3).
+      { change 16777216 with (65536 * 256). rewrite <- N.div_div by lia. rewrite D1.
+        replace (x2 + 256 * x3) with (x2 + x3 * 256) by lia. rewrite N.div_add by lia.
+        rewrite (N.div_small x2 256) by lia. lia. }
+      rewrite E0, E1, E2, D2. rewrite (IH _ _ Hr1 El). reflexivity. }
+    destruct (N.eqb_spec c 79) as [->|N79].
+    { destruct (lex_bytes f r) as [ts'|] eqn:El; [|discriminate]. injection H as <-.
+      cbn [ser_toks ser_tok]. rewrite (IH _ _ Hr El). reflexivity. }
+    destruct (N.leb_spec 81 c) as [H81|H81]; [destruct (N.leb_spec c 96) as [H96|H96]|]; cbn [andb] in H.
+    { destruct (lex_bytes f r) as [ts'|] eqn:El; [|discriminate]. injection H as <-.
+      cbn [ser_toks ser_tok]. unfold ser_num. destruct (Z.eqb_spec (Z.of_N c - 80) (-1)); [lia|].
+      replace (Z.to_N (80 + (Z.of_N c - 80))) with c by lia. rewrite (IH _ _ Hr El). reflexivity. }
+    { destruct (lex_bytes f r) as [ts'|] eqn:El; [|discriminate]. injection H as <-.
+      cbn [ser_toks ser_tok app]. rewrite (IH _ _ Hr El). reflexivity. }
+    { destruct (lex_bytes f r) as [ts'|] eqn:El; [|discriminate]. injection H as <-.
+      cbn [ser_toks ser_tok app]. rewrite (IH _ _ Hr El). reflexivity. }
+Qed.
+
+Lemma parse_seq_sound : forall f ts s st r', parse_seq f ts = Some (s, st, r') ->
+  ts = flat s ++ stop_toks st ++ r' /\ (st = AtEnd -> r' = []).
+Proof.
+  induction f as [|f IH]; intros ts s st r' H; [discriminate|].
+  cbn [parse_seq] in H. destruct ts as [|t r].
+  - injection H as <- <- <-. split; [reflexivity|auto].
+  - destruct t as [d|n|c].
+    + destruct (parse_seq f r) as [[[s0 st0] r0]|] eqn:E; [|discriminate]. injection H as <- <- <-.
+      destruct (IH _ _ _ _ E) as [-> Hend]. split; [reflexivity|exact Hend].
+    + destruct (parse_seq f r) as [[[s0 st0] r0]|] eqn:E; [|discriminate]. injection H as <- <- <-.
+      destruct (IH _ _ _ _ E) as [-> Hend]. split; [reflexivity|exact Hend].
+    + destruct (N.eqb_spec c OPB_ELSE) as [->|NE]; [injection H as <- <- <-; split; [reflexivity|discriminate]|].
+      destruct (N.eqb_spec c OPB_ENDIF) as [->|NF]; [injection H as <- <- <-; split; [reflexivity|discriminate]|].
+      destruct (N.eqb c OPB_IF || N.eqb c OPB_NOTIF) eqn:Eif.
+      * assert (Hc : c = if N.eqb c OPB_NOTIF then OPB_NOTIF else OPB_IF).
+        { destruct (N.eqb_spec c OPB_NOTIF) as [->|]; [reflexivity|].
+          destruct (N.eqb_spec c OPB_IF) as [->|]; [reflexivity|discriminate]. }
+        destruct (parse_seq f r) as [[[thn st1] r1]|] eqn:E1; [|discriminate].
+        destruct (IH _ _ _ _ E1) as [-> _].
+        destruct st1; [discriminate| |].
+        -- (* ELSE *) destruct (parse_seq f r1) as [[[el st2] r2]|] eqn:E2; [|discriminate].
+           destruct st2; try discriminate.
+           destruct (parse_seq f r2) as [[[s0 st0] r0]|] eqn:E3; [|discriminate]. injection H as <- <- <-.
+           destruct (IH _ _ _ _ E2) as [-> _]. destruct (IH _ _ _ _ E3) as [-> Hend].
+           split; [|exact Hend]. cbn [flat]. rewrite flat_if. cbn [stop_toks app]. rewrite <- Hc.
+           rewrite <- !app_assoc. cbn [app]. rewrite <- !app_assoc. reflexivity.
+        -- (* ENDIF *) destruct (parse_seq f r1) as [[[s0 st0] r0]|] eqn:E3; [|discriminate]. injection H as <- <- <-.
+           destruct (IH _ _ _ _ E3) as [-> Hend].
+           split; [|exact Hend]. cbn [flat]. rewrite flat_if. cbn [stop_toks app]. rewrite <- Hc.
+           rewrite <- !app_assoc. reflexivity.
+      * destruct (parse_seq f r) as [[[s0 st0] r0]|] eqn:E; [|discriminate]. injection H as <- <- <-.
+        destruct (IH _ _ _ _ E) as [-> Hend]. split; [|exact Hend].
+        cbn [flat flat_instr app]. rewrite opcode_byte_inv. reflexivity.
+Qed.
+
+(* any byte string that parses is the serialisation of what it parses to *)
+Theorem parse_ser : forall b s, is_bytes b -> parse_script b = Some s -> serialize s = b.
+Proof.
+  intros b s Hb H. unfold parse_script in H.
+  destruct (lex_bytes (S (length b)) b) as [ts|] eqn:El; [|discriminate].
+  destruct (parse_seq (S (S (length ts))) ts) as [[[s0 st] r]|] eqn:Ep; [|discriminate].
+  destruct st; try discriminate. destruct r; [|discriminate]. injection H as <-.
+  destruct (parse_seq_sound _ _ _ _ _ Ep) as [-> _]. cbn [stop_toks] in El. rewrite !app_nil_r in El.
+  rewrite serialize_flat. apply (lex_bytes_sound _ _ _ Hb El).
+Qed.
